@@ -50,6 +50,9 @@ pub enum C17Case {
     /// several sinks are constructed in Create mode on the same absent path at the same
     /// moment: "create fails if and only if the file exists" => exactly one succeeds
     CreateRace { kind: u8, threads: u8, rounds: u8 },
+    /// the file may not grow beyond `limit` bytes (RLIMIT_FSIZE in a child process: short
+    /// writes, then EFBIG): whatever work() returns, what counts as consumed is in the file
+    FileLimit { kind: u8, n: u32, seed: u32, limit: u32 },
 }
 
 fn mode_str(m: u8) -> &'static str {
@@ -177,7 +180,8 @@ impl Prop for C17 {
             .prop_map(|(kind, n, seed, piece, dev_full)| C17Case::Blocked { kind, n, seed, piece, dev_full });
         let shared = (0u8..3, 1u16..2000, any::<u32>(), 1u16..300, 1u8..5).prop_map(|(kind, n, seed, chunk, every)| C17Case::AppendShared { kind, n, seed, chunk, every });
         let race = (0u8..3, 2u8..9, 1u8..12).prop_map(|(kind, threads, rounds)| C17Case::CreateRace { kind, threads, rounds });
-        prop_oneof![16 => modes, 2 => kills, 12 => durable, 2 => blocked, 2 => shared, 1 => race].boxed()
+        let flimit = (0u8..2, 1u32..60_000, any::<u32>(), 0u32..200_000).prop_map(|(kind, n, seed, limit)| C17Case::FileLimit { kind, n, seed, limit });
+        prop_oneof![16 => modes, 2 => kills, 12 => durable, 2 => blocked, 2 => shared, 1 => race, 1 => flimit].boxed()
     }
     fn cases(&self, tier: Tier) -> u64 {
         tier.pick(4_000, 40_000)
@@ -202,6 +206,7 @@ impl Prop for C17 {
     fn run(&self, case: &C17Case, ctx: &mut Ctx) {
         match case {
             C17Case::Mode { mode, init, kind, n, seed, chunk } => run_mode(*mode, *init, *kind, *n as usize, *seed as u64, *chunk as usize, ctx),
+            C17Case::FileLimit { kind, n, seed, limit } => run_file_limit(*kind, *n as usize, *seed as u64, *limit as u64, ctx),
             C17Case::CreateRace { kind, threads, rounds } => run_create_race(*kind, *threads as usize, *rounds as usize, ctx),
             C17Case::AppendShared { kind, n, seed, chunk, every } => run_append_shared(*kind, *n as usize, *seed as u64, *chunk as usize, *every as usize, ctx),
             C17Case::Blocked { kind, n, seed, piece, dev_full } => run_blocked(*kind, *n as usize, *seed as u64, *piece as usize, *dev_full, ctx),
@@ -212,7 +217,7 @@ impl Prop for C17 {
         }
     }
     fn rule(&self) -> String {
-        "enumerated: open modes x initial file states x sink kinds x {700, 3, 0} units of new data (189 combinations), plus generated data lengths/chunkings; fault enumeration: a child process streams a seeded sequence through the sink and acknowledges the running count of consumed samples (raw write(2)) after every work() that returns; the parent SIGKILLs it after a generated number of acknowledgements plus a generated busy-wait. Oracle: constructor result and final file content equal a model of the documented modes (Create fails iff the path exists; Overwrite leaves exactly the new data; Append keeps old content and appends, creating the file if absent; structural impossibilities are Err); after a kill the file is (old content for Append ++) a byte prefix of the serialised stream, at least as long as the last acknowledged count. In-process crash-point enumeration ('durable' cases): FileSink<u8|f32|Complex|u32> on streams of 8 KiB, 64 KiB, 1 MiB and the default 4 MB, fed batches of 1..200 000 samples (and, for the byte sink on the default stream, a few batches of 1-3.6 million); after *every* work() that returns, the file is read through a second descriptor (exactly what a SIGKILL at that instant leaves behind, since the page cache survives the process) and must hold all consumed samples and be a prefix of the serialised stream. Create raced from 2-8 threads on one absent path: exactly one constructor succeeds. Append with a second appender ('append-shared'): another handle appends markers to the file between work() calls; the file must be the old content followed by everything in the order it was written. Crash points inside a call ('blocked' cases): the destination is a FIFO drained by the harness in pieces, so the sink blocks in write(2) mid-call while the harness samples how much of the stream counts as consumed: bytes consumed <= bytes read from the FIFO + pipe capacity (+ one packet for the packet sink) at every observation - an invariant of any sink that consumes after writing, so timing can hide a violation but not produce one; and /dev/full, where the write fails: nothing of that call may count as consumed (stream sink). Non-trivial: a FIFO case with more data than the pipe holds, a durable case with >= 2 work() returns, a mode case whose initial state is not 'absent', or a kill that landed after >= 1 acknowledgement and before the end; distinct = hash of the case (kill timing is not part of the hash).".into()
+        "enumerated: open modes x initial file states x sink kinds x {700, 3, 0} units of new data (189 combinations), plus generated data lengths/chunkings; fault enumeration: a child process streams a seeded sequence through the sink and acknowledges the running count of consumed samples (raw write(2)) after every work() that returns; the parent SIGKILLs it after a generated number of acknowledgements plus a generated busy-wait. Oracle: constructor result and final file content equal a model of the documented modes (Create fails iff the path exists; Overwrite leaves exactly the new data; Append keeps old content and appends, creating the file if absent; structural impossibilities are Err); after a kill the file is (old content for Append ++) a byte prefix of the serialised stream, at least as long as the last acknowledged count. In-process crash-point enumeration ('durable' cases): FileSink<u8|f32|Complex|u32> on streams of 8 KiB, 64 KiB, 1 MiB and the default 4 MB, fed batches of 1..200 000 samples (and, for the byte sink on the default stream, a few batches of 1-3.6 million); after *every* work() that returns, the file is read through a second descriptor (exactly what a SIGKILL at that instant leaves behind, since the page cache survives the process) and must hold all consumed samples and be a prefix of the serialised stream. A size-limited file (RLIMIT_FSIZE in a child: short writes, then EFBIG): what counts as consumed is in the file, the file is a prefix. Create raced from 2-8 threads on one absent path: exactly one constructor succeeds. Append with a second appender ('append-shared'): another handle appends markers to the file between work() calls; the file must be the old content followed by everything in the order it was written. Crash points inside a call ('blocked' cases): the destination is a FIFO drained by the harness in pieces, so the sink blocks in write(2) mid-call while the harness samples how much of the stream counts as consumed: bytes consumed <= bytes read from the FIFO + pipe capacity (+ one packet for the packet sink) at every observation - an invariant of any sink that consumes after writing, so timing can hide a violation but not produce one; and /dev/full, where the write fails: nothing of that call may count as consumed (stream sink). Non-trivial: a FIFO case with more data than the pipe holds, a durable case with >= 2 work() returns, a mode case whose initial state is not 'absent', or a kill that landed after >= 1 acknowledgement and before the end; distinct = hash of the case (kill timing is not part of the hash).".into()
     }
     fn assumptions(&self) -> Vec<String> {
         vec![
@@ -292,6 +297,44 @@ fn run_mode(mode: u8, init: Init, kind: u8, n: usize, seed: u64, chunk: usize, c
                 );
             }
         }
+    }
+}
+
+/// A file that cannot take the whole batch: the sink must not count as consumed what is not
+/// in the file.
+fn run_file_limit(kind: u8, n: usize, seed: u64, limit: u64, ctx: &mut Ctx) {
+    ctx.class("file-size-limit");
+    let sc = Scratch::new();
+    let path = sc.path("limited.bin");
+    let kname = if kind % 2 == 0 { "u8" } else { "f32" };
+    let args = vec!["child".to_string(), "fsize".into(), path.to_str().unwrap().to_string(), kname.to_string(), limit.to_string(), n.to_string(), seed.to_string()];
+    let (code, out) = run_child(&args, 60);
+    let Some(v) = parse_child(&out) else {
+        if code == Some(3) {
+            ctx.skip("sink could not be opened under the limit");
+        } else {
+            ctx.fail("C17/file-limit/child-died".to_string(), format!("child {args:?} ended with {code:?}: {}", out.chars().take(300).collect::<String>()));
+        }
+        return;
+    };
+    let consumed = v["consumed_bytes"].as_u64().unwrap_or(0);
+    let len = v["file_len"].as_u64().unwrap_or(0);
+    let fed = v["fed"].as_u64().unwrap_or(0) * if kind % 2 == 0 { 1 } else { 4 };
+    if fed > limit {
+        ctx.nontrivial();
+        ctx.class("file-size-limit/batch-crosses-the-limit");
+    }
+    if len < consumed {
+        ctx.fail(
+            format!("C17/file-limit/consumed-data-not-in-file/{kname}"),
+            format!("FileSink<{kname}> with the file limited to {limit} bytes: {consumed} bytes count as consumed (work() results {}), the file holds {len}", v["work_ok"]),
+        );
+        return;
+    }
+    let (bytes, _) = serialised(kind % 2, n, seed);
+    let got = std::fs::read(&path).unwrap_or_default();
+    if got.len() > bytes.len() || got[..] != bytes[..got.len()] {
+        ctx.fail("C17/file-limit/not-a-prefix".to_string(), format!("the {} bytes in the size-limited file are not a prefix of the serialised stream", got.len()));
     }
 }
 
